@@ -27,9 +27,10 @@
 //     only situation in which nbio may take the sendfile path), the reduced family {0, 1, beyond the
 //     end} on a connection without Sendfile, the empty segment and "limit 1 at the end of the file"
 //     (on a connection with Sendfile) elsewhere; a displaced segment is
-//     only completed (fill, Flush), not expanded further. Thorough: the whole family on every
-//     connection kind where a Content-Length is declared, {0, 1, beyond the end, limit 1 at the end
-//     of the file} elsewhere, displaced states expanded (respgen.Config.RFXWide).
+//     only completed (fill, Flush), not expanded further. The thorough tier applies the same rule
+//     at depth 5 with the third connection kind (the wider variant respgen.Config.RFXWide - whole
+//     family on every connection kind, more outside declared lengths, displaced states expanded -
+//     exceeds the thorough budget together with the allocator dimension; VERIF_C09_WIDE=1).
 //   - programs that read from a file are, on the two keep-alive request versions, followed by a
 //     second pipelined request on the same connection whose handler answers a fixed response: what
 //     the first response puts on the wire beyond its framing is seen in front of the second one.
@@ -40,7 +41,7 @@
 //     Append/Realloc relocates and poisons the old buffer) and under mempool.NewSTD(), and judged by
 //     the same oracle. Quick tier: one history per distinct (implementation, model) state pair - the
 //     programs that are new states - for the two moving allocators, those of length <= 3 for NewSTD;
-//     thorough: every program under every allocator.
+//     thorough: every program under the two moving allocators, the new states under NewSTD.
 //   - levels 1..2 of the BFS are computed by every worker (global visited set); each level-2
 //     state is the root of a sub-tree owned by one worker, whose visited set is seeded with the
 //     global one. "states" therefore counts distinct (implementation, model) state pairs per
@@ -73,7 +74,7 @@ func main() {
 		Rule: "every handler program over the operation alphabet {Header().Set(Content-Length | Content-Type | Trailer | Trailer+value | trailer value | Transfer-Encoding: chunked), " +
 			"WriteHeader(200|204|404), Write, WriteString, Flush, ReadFrom(bytes.Reader | *os.File | io.LimitedReader{*os.File, N} after Seek(off) with N in {0,1,100,left,left+1,file+1000} x off in {0,middle,EOF} x conn {Sendfile, no Sendfile})} up to length 4 (quick) / 5 (thorough), " +
 			"programs with a file operation being followed by a pipelined second request on the keep-alive versions, " +
-			"each program that is clean under the explorer's allocator (track, pooled capacities) run again under mempool.NewAligned(), track+MoveOnGrow and mempool.NewSTD() (quick: the programs that are new states; NewSTD up to length 3), " +
+			"each program that is clean under the explorer's allocator (track, pooled capacities) run again under mempool.NewAligned(), track+MoveOnGrow and mempool.NewSTD() (quick: the programs that are new states, NewSTD up to length 3; thorough: every program, NewSTD the new states), " +
 			"for the request versions HTTP/1.0, HTTP/1.0+keep-alive, HTTP/1.1, HTTP/1.1+close, is executed through Parser.Parse -> ServerProcessor.OnComplete -> handler -> flushResponse; " +
 			"write sizes are {0,1,100,70000,131072}, the rest of a declared Content-Length, and sizes computed from a probe run of the same history so that the measured internal buffer " +
 			"(pending bytes + framing + data) lands on 65534/65535/65536/65537; BFS states are deduplicated on a canonical dump of the Response's private fields + wire so far + model state. " +
@@ -125,7 +126,10 @@ func run(tier string, sh *vkit.Shard, p *vkit.Part) {
 	cfg := respgen.QuickConfig().WithFileSegments(false)
 	limit := 80 * time.Second
 	if tier == "thorough" {
-		cfg = respgen.ThoroughConfig().WithFileSegments(true)
+		// RFXWide (the family beyond where nbio can take the sendfile path, displaced states expanded,
+		// connection kind in the state key) does not fit the thorough budget together with the
+		// allocator dimension at depth 5 (> 10^7 programs x 4 allocators); VERIF_C09_WIDE=1 runs it
+		cfg = respgen.ThoroughConfig().WithFileSegments(os.Getenv("VERIF_C09_WIDE") != "")
 		limit = 17 * time.Minute
 	}
 	if os.Getenv("VERIF_C09_NORFX") != "" { // development: the alphabet without the file-segment family
@@ -149,8 +153,9 @@ func run(tier string, sh *vkit.Shard, p *vkit.Part) {
 	if os.Getenv("VERIF_C09_NOALTS") != "" {
 		x.Alts = nil
 	}
-	if tier != "thorough" {
-		x.AltWanted = quickAltWanted
+	x.AltWanted = quickAltWanted
+	if tier == "thorough" {
+		x.AltWanted = thoroughAltWanted
 	}
 	x.Stop = func() bool { return time.Now().After(deadline) }
 	x.Visit = func(n *respgen.Node) {
@@ -291,6 +296,12 @@ func quickAltWanted(n *respgen.Node, alt int) bool {
 		return len(n.Prog.Ops) <= 3
 	}
 	return true
+}
+
+// thorough: every program under the two moving allocators; mempool.NewSTD() for the programs that
+// are new states.
+func thoroughAltWanted(n *respgen.Node, alt int) bool {
+	return n.New || alts[alt].Alloc != respgen.AllocSTD
 }
 
 // visitAlts accounts for and reports the allocator dimension of one program.
